@@ -6,7 +6,7 @@ from daemon import probe
 from scenario import simple_cert
 
 NEEDS = ["acmed"]
-LABELS = ["C09_Window", "C09_NoStarvation", "C09_ThroughLimiter"]
+LABELS = ["C09_Window", "C09_NoStarvation", "C09_ThroughLimiter", "C09_SentWhenAdmitted"]
 U = 100000      # ns per trace unit (100 microseconds)
 
 MC_CFG = """SPECIFICATION SSpec
@@ -98,13 +98,14 @@ def run(ctx):
             owner.append(i)
     # daemon level: every request of an endpoint passes its limiter; the limiter is shared by the certificates of the endpoint
     specs = []
-    for n_certs, lim in ((1, [(4, 1)]), (3, [(5, 1)]), (2, [(3, 1), (8, 2)]), (2, [(6, 1), (3, 2)])):
+    # (a CA that gives no nonce with its directory makes the first POST of every attempt fetch one: GET newNonce and POST in a row)
+    for n_certs, lim, nog in ((1, [(4, 1)], True), (3, [(5, 1)], False), (2, [(3, 1), (8, 2)], True), (2, [(6, 1), (3, 2)], False), (1, [(1, 1)], False), (2, [(2, 1)], False)):
         rls = [{"name": "rl%d" % k, "number": n, "period": "%ds" % p} for k, (n, p) in enumerate(lim)]
         certs = [simple_cert("rl%d" % j) for j in range(n_certs)]
         script = [{"kind": "newOrder", "nth": 1, "fault": "acme:badNonce:400", "repeat": 3}] if n_certs == 1 else []
         specs.append(flowcheck.prepare(dict(tag="C09/d%d" % len(specs), certs=certs, attempts=1, rate_limits=rls, timeout=300,
-                                            endpoints={"A": {"rate_limits": [x["name"] for x in rls], "script": script}},
-                                            meta={"family": "daemon", "certs": n_certs, "limits": lim})))
+                                            endpoints={"A": {"rate_limits": [x["name"] for x in rls], "script": script, "ca": {"nonce_on_get": nog}}},
+                                            meta={"family": "daemon", "certs": n_certs, "limits": lim, "nonce_with_directory": nog})))
     # requests whose answer never comes (the CA has read them: they count) followed by more traffic on the endpoint
     for n_certs, lim, script in ((3, [(2, 1)], [{"kind": "newOrder", "nth": 1, "fault": "drop_after", "repeat": 2}, {"kind": "newAccount", "nth": 1, "fault": "drop_after", "repeat": 1}]),
                                  (4, [(1, 1), (3, 4)], [{"kind": "directory", "nth": 2, "fault": "drop_after", "repeat": 2}, {"kind": "authz", "nth": 1, "fault": "drop_after", "repeat": 1}])):
@@ -129,6 +130,9 @@ def run(ctx):
                     t = lg[-1] // U
                     lines.append({"e": "Admit", "call": t, "t": t, "ret": t, "judge_wait": False})
                     owner.append(base + j)
+            elif e.get("src") == "acmed" and e.get("ev") in ("HttpGet", "HttpPost") and e.get("ep") == "A":
+                lines.append({"e": "Send"})
+                owner.append(base + j)
             elif e.get("src") == "ca" and e.get("ev") == "CaReq" and e.get("ep") == "A":
                 nreq += 1
                 lines.append({"e": "Request"})
